@@ -140,7 +140,9 @@ def run_selftest(prop: str, rep) -> int:
           f"{len(neutrals) - len(false_alarms) - len(stopped)}/{len(neutrals)} ({len(false_alarms)} false alarms, {len(stopped)} stopped the analysis)")
     for x in false_alarms:
         print(f"ANALYSIS-ERROR property={prop}: false alarm on behaviour-preserving variant {x['op']} in {x['function']} ({x['detail']}): {x['rules']}")
-    if false_alarms:
+    for x in stopped:
+        print(f"ANALYSIS-ERROR property={prop}: the analysis stops on behaviour-preserving variant {x['op']} in {x['function']} ({x['detail']})")
+    if false_alarms or stopped:
         return 2
     if missed:
         for x in missed:
